@@ -1,6 +1,5 @@
 (* Proofs about model/CacheLinbasex.v (fixed code): history independence and
-   fault safety; the one remaining exclusion (image size not part of the memory
-   test) is shown to be real. *)
+   fault safety. *)
 From Coq Require Import List Arith Bool Lia.
 From PA Require Import base.Npy model.CacheCommon model.CacheLinbasex.
 Import ListNotations.
@@ -66,7 +65,7 @@ Definition honest (d : disk fkey lcont) : Prop :=
    the key built from them *)
 Definition Inv (s : st) : Prop :=
   match basis s with
-  | Some c => c = own c /\ kprm s = Some (own_key c)
+  | Some c => c = own c /\ kprm s = Some (l_cols c, own_key c)
   | None => True
   end /\ honest (dk s).
 
@@ -168,36 +167,36 @@ Lemma step_good : forall s o s' r,
 Proof.
   intros s o s' r HI Hz Hs. pose proof HI as [HI0 Hh].
   destruct o as [cols o a stp cl bd| |bd|bd|d k c|d k].
-  - cbn [step hazard] in *. apply orb_false_iff in Hz. destruct Hz as [Hbad Hsize].
+  - cbn [step hazard] in *. pose proof Hz as Hbad.
     assert (Hbd : match bd with BPath d => dir_writable d = true | _ => True end).
     { destruct bd; auto. unfold uses_bad_dir in Hbad. simpl in Hbad. apply negb_false_iff in Hbad. auto. }
     rewrite fresh_expected by exact Hbd.
     set (want := ideal cols o a stp cl) in *. set (k := key_of o a stp cl) in *.
-    unfold step_call in Hs. fold k want in Hs. unfold size_confusion in Hsize. fold k in Hsize.
+    unfold step_call in Hs. fold k want in Hs.
     destruct (mem_hit s cols k) as [c|] eqn:Eh.
     + (* memory hit: same key, same image size: it is the wanted basis *)
-      apply negb_false_iff in Hsize. apply Nat.eqb_eq in Hsize.
       assert (Hc : c = want).
       { unfold mem_hit in Eh. destruct (basis s) as [c0|]; [|discriminate].
-        destruct (kprm s) as [k0|]; [|discriminate].
-        destruct ((l_rows c0 =? 2 * cols) && (l_ncols c0 =? cols + 1) && key_eqb k0 k) eqn:Et; [|discriminate].
-        inversion Eh; subst c0. destruct HI0 as [Hown Hk0]. inversion Hk0; subst k0.
-        apply andb_true_iff in Et. destruct Et as [_ Et]. apply key_eqb_eq in Et.
+        destruct (kprm s) as [[kc k0]|]; [|discriminate].
+        destruct ((l_rows c0 =? 2 * cols) && (l_ncols c0 =? cols + 1) && (kc =? cols) && key_eqb k0 k) eqn:Et; [|discriminate].
+        inversion Eh; subst c0. destruct HI0 as [Hown Hk0]. inversion Hk0; subst kc k0.
+        apply andb_true_iff in Et. destruct Et as [Et Ek]. apply andb_true_iff in Et. destruct Et as [_ Ec].
+        apply key_eqb_eq in Ek. apply Nat.eqb_eq in Ec.
         apply own_key_eq; auto. }
       rewrite Hc in Hs. rewrite use_split in Hs. inversion Hs; subst s' r. split; auto. intros _. left.
       apply out_eqv_use_refl. reflexivity.
     + destruct (resolve (gdir s) bd) as [g dir] eqn:Er.
       unfold uses_bad_dir in Hbad. rewrite Er in Hbad. cbn [snd] in Hbad.
-      assert (Hgen : forall d', honest d' -> Inv (mk (Some want) (Some k) g d')).
+      assert (Hgen : forall d', honest d' -> Inv (mk (Some want) (Some (cols, k)) g d')).
       { intros d' Hd'. unfold Inv, mk. cbn [basis kprm dk]. split; auto. }
       assert (Hgenerate : forall s2 r2,
                 match dir with
                 | Some d =>
                     if dir_writable d
-                    then use (mk (Some want) (Some k) g (put_file fkey_eqb d (cols, k) (FGood want) (dk s)))
+                    then use (mk (Some want) (Some (cols, k)) g (put_file fkey_eqb d (cols, k) (FGood want) (dk s)))
                              want cols (length o) (length a)
-                    else (mk (Some want) (Some k) g (dk s), Raise EOther)
-                | None => use (mk (Some want) (Some k) g (dk s)) want cols (length o) (length a)
+                    else (mk (Some want) (Some (cols, k)) g (dk s), Raise EOther)
+                | None => use (mk (Some want) (Some (cols, k)) g (dk s)) want cols (length o) (length a)
                 end = (s2, r2) ->
                 Inv s2 /\ out_eqv r2 (use_res want cols (length o) (length a)) = true).
       { intros s2 r2 E. destruct dir as [di|].
@@ -296,9 +295,8 @@ Proof.
   exfalso. exact (Hc _ _ _ Hin pe eq_refl).
 Qed.
 
-(* C07 for linbasex.  _partial only because of the size_confusion exclusion in
-   `hazard` (the memory test does not compare the image size) *)
-Theorem history_independent_partial : forall ops,
+(* C07 for linbasex *)
+Theorem history_independent : forall ops,
   no_hazard init ops = true -> no_damage ops = true -> all_agree init ops = true.
 Proof.
   intros. apply history_independent_from; auto.
@@ -353,12 +351,11 @@ Example wrong_shape_regenerated :
           (fresh (Call 11 [0; 2] [0; 202] 1 0 (BPath 1))) = true.
 Proof. vm_compute. reflexivity. Qed.
 
-(* REMAINING finding: the memory test looks at the shape (2*cols, cols+1) only.
-   6 angles and 5 orders on a 3x3 image give an (18, 10) basis; the same lists
-   on a 9x9 image pass the test and lstsq raises LinAlgError *)
+(* 8cabaad: the memory test compares the image size too.  6 angles and 5 orders
+   on a 3x3 image give an (18, 10) basis = (2*9, 9+1); the same lists on a 9x9
+   image no longer hit it *)
 Definition six : list nat := [10; 60; 110; 160; 210; 260].
 Definition five : list nat := [0; 1; 2; 3; 4].
-Theorem size_test_refuted :
-  res_code (last_result [Call 3 five six 1 0 BNone] (Call 9 five six 1 0 BNone)) = exc_code EOther /\
-  res_code (fresh (Call 9 five six 1 0 BNone)) = 0.
-Proof. split; vm_compute; reflexivity. Qed.
+Example size_test_fixed :
+  out_eqv (last_result [Call 3 five six 1 0 BNone] (Call 9 five six 1 0 BNone)) (fresh (Call 9 five six 1 0 BNone)) = true.
+Proof. vm_compute. reflexivity. Qed.
